@@ -24,15 +24,22 @@ func MonCancelStops(a *Analysis, p int64, snapAtCancel State, async bool) []Viol
 		return []Violation{{"CancelStops", 0, "", fmt.Sprintf("panic escaped: %v", res.Panic)}}
 	}
 	// which cycle / window was running at p
+	// the action list of a cycle may start when the last ExecuteRuleEntry listener has returned
+	startOf := func(c *CycleInfo) int64 {
+		if c.ActStart > 0 {
+			return c.ActStart
+		}
+		return c.ActSeqLo
+	}
 	var running *CycleInfo // the cycle whose action list was executing at p
 	for _, c := range a.Cycles {
-		if c.ActSeqLo > 0 && c.ActSeqLo < p && (c.ActSeqHi == 0 || c.ActSeqHi > p) {
+		if startOf(c) > 0 && startOf(c) < p && (c.ActSeqHi == 0 || c.ActSeqHi > p) {
 			running = c
 		}
 	}
 	// no action effect of a firing that started after p
 	for _, c := range a.Cycles {
-		if c.ActSeqLo > p {
+		if startOf(c) > p || (startOf(c) == 0 && c.ActSeqLo > p) {
 			// a SetRuleEntry after p is tolerated only when no effect of the action list exists
 			for _, e := range res.Events {
 				if e.Seq > c.ActSeqLo && (e.Kind == "method" || e.Kind == "inc" || e.Kind == "add") {
@@ -80,6 +87,11 @@ func MonCancelStops(a *Analysis, p int64, snapAtCancel State, async bool) []Viol
 	}
 	// return value
 	ctxErr := a.Cfg.Ctx.Err()
+	if res.Err == nil && running != nil && !async && !a.Complete {
+		// the context ended while this rule's action list was executing: when the list is done the
+		// engine is back at the top of its loop and must report the context's error
+		vs = append(vs, Violation{"CancelStops", running.N, running.SetRules[0], "the context ended while this rule's action list was executing, but Execute returned nil afterwards instead of the context's error"})
+	}
 	if res.Err == nil {
 		// legal only when nothing remained to be stopped: quiescent (or the running rule was the last)
 		if a.DomainFrom < 0 {
